@@ -55,7 +55,7 @@ var Check = &mc.Check{
 		"quick: k<=1 full/any unary subset and k=2 full/<=1 unary on all 6 field types, k=2 reduced/any unary subset (int,bool), k=3 reduced/no unary (int,string,bool), k=3 tiny/<=1 unary (int,bool); " +
 		"thorough: k<=2 full/any unary subset and k=3 full/no unary on all field types, k=3 reduced/<=1 unary and k=4 tiny/no unary (int,string,bool,*int), k=4 tiny/<=1 unary (bool), k=4 reduced/no unary (int); " +
 		"every tree printed 3 ways (minimal parentheses without spaces, fully parenthesised, redundant parentheses + irregular spacing/tabs), each printing compiled as the vd tag of a fresh reflect.StructOf type " +
-		"and validated for every value of the field domain (int {0,1,2,-1,3}, float64 {0,0.5,-1.5,2.5}, string {'',a,ab,b}, bool, *int {nil,0,2,-1}, []int {nil,[],[7],[1,2]}), first call cold, later calls on the cached compilation; " +
+		"and validated for every value of the field domain (int {0,1,2,-1,3}, float64 {0,0.5,-1.5,2.5}, string {'',a,ab,b,0}, bool, *int {nil,0,2,-1}, []int {nil,[],[7],[1,2]}), first call cold, later calls on the cached compilation; " +
 		"non-trivial = evaluations of trees in which some binary operator has a binary right operand, a lower-precedence binary left operand, or a unary applied to a binary operand " +
 		"(hertz's initial flat left-to-right chain has to be re-associated or grouped) and whose verdict the reference determines",
 	Run:    run,
@@ -882,7 +882,7 @@ type fieldKind struct {
 var fieldKinds = []*fieldKind{
 	{"int", reflect.TypeOf(int(0)), []string{"0", "1", "2", "-1", "3"}},
 	{"float64", reflect.TypeOf(float64(0)), []string{"0", "0.5", "-1.5", "2.5"}},
-	{"string", reflect.TypeOf(""), []string{"", "a", "ab", "b"}},
+	{"string", reflect.TypeOf(""), []string{"", "a", "ab", "b", "0"}},
 	{"bool", reflect.TypeOf(false), []string{"false", "true"}},
 	{"*int", reflect.TypeOf((*int)(nil)), []string{"nil", "0", "2", "-1"}},
 	{"[]int", reflect.TypeOf([]int(nil)), []string{"nil", "[]", "[7]", "[1,2]"}},
